@@ -513,6 +513,42 @@ class HostileCliGen(clilib.CliGen):
         self.events.append('D %d %s' % (self.now, dg.hex() if dg else '-'))
         self.stats['hostile'] += 1
 
+    def build(self, nevents):
+        # same event kinds as CliGen.build, with about a quarter of hostile datagrams
+        r = self.rng
+        while len(self.events) < nevents:
+            x = r.random()
+            if not self.dns:
+                if x < 0.3:
+                    self.tun()
+                elif x < 0.6:
+                    self.rawdg()
+                elif x < 0.7:
+                    self.timeout()
+                else:
+                    self.hostile()
+            elif x < 0.15:
+                self.tun()
+            elif x < 0.32:
+                self.answer(ackmode=r.choice([0, 1, 1, 1, 2]))
+            elif x < 0.47:
+                self.down_packet()
+            elif x < 0.60:
+                self.timeout()
+            elif x < 0.64:
+                self.events.append('A %d %d %d %d %d 0 %s' % (self.now, r.choice([0, 1]), self.first_char(), self.qtype, self.downenc,
+                                                              r.choice([b'BADIP', b'x', b'BADIPx', bytes([0x80])]).hex()))
+                self.stats['answer'] += 1
+            elif x < 0.88:
+                self.hostile()
+            elif x < 0.92:
+                self.rawdg()
+            else:
+                self.answer(payload=bytes(r.randrange(256) for _ in range(r.randrange(1, 50))), last=r.randrange(2) == 0,
+                            seq=r.randrange(8), frag=r.randrange(16), ackmode=r.randrange(3))
+            self.tick()
+        return self.head() + ' ; ' + ' ; '.join(self.events[:nevents])
+
 
 def gen_tunnel(rng, n, nevents):
     out = []
